@@ -152,7 +152,7 @@ def run_sched(shape: str, ncalls: int, mode: int, s0: int, s1: int, s2: int, s3:
 def run_preempt(k: int, mode: int, va: bool, vb: bool, nested: bool) -> Tuple[bool, bool]:
     """Sync calls: while call A is inside user code (its k-th transition: condition, body, postcondition), another
     thread - modelled as another context - runs a whole call B of the same function."""
-    k, mode = conc(k, 0, 2), conc(mode, 0, 2)
+    k, mode = conc(k, 0, 2), conc(mode, 0, 3)
     nested = True if nested else False
     with untraced():
         w = _CACHE.get("sfunc")
@@ -231,10 +231,11 @@ def harnesses(tier: str) -> List[H]:
                                         ncalls, "async function" if shape == "afunc" else
                                         "async method of ONE object with an invariant", nsched, MODES[mode]),
                              family_size=ncalls ** nsched))
-    params = [I("k", 0, 2), I("mode", 0, 2), B("va"), B("vb")]
+    params = [I("k", 0, 2), I("mode", 0, 3), B("va"), B("vb")]
     out.append(H("preempt_sync", bind(run_preempt, (), ["k", "mode", "va", "vb", "nested"], {"nested": False},
                                       [p.name for p in params]), params, tiers=(tier,), timeout=600,
                  family="sync function: while call A is inside its precondition / body / postcondition another context "
-                        "(thread) runs a complete call B; 3 context-inheritance modes (a context copied WHILE the parent "
-                        "is inside a contract is outside the property's stated modes)", family_size=3 * 3 * 4))
+                        "(thread) runs a complete call B; 4 context-inheritance modes: fresh, copied before / after the parent "
+                        "ran contracted code, and (mode 3) copied WHILE the parent is inside that transition - the last "
+                        "one inside a condition is the known finding KF-C12-1", family_size=3 * 4 * 4))
     return out
